@@ -615,15 +615,16 @@ def swarm_config(prop, seed, faults):
     rnd = Streams(seed).py("config")
     deep = os.environ.get("SIMTT_TIER") == "thorough"   # deeper bounds in the thorough tier (set by the runner)
     cfg = {
-        "max_order": rnd.choice((2, 3, 3, 4, 4, 5, 6) if deep else (2, 3, 3, 4, 4, 5)),
-        "max_rank": rnd.choice((2, 3, 4, 6, 8) if deep else (2, 3, 4, 6)),
+        "max_order": rnd.choice((2, 3, 3, 4, 4, 5, 6, 7) if deep else (2, 3, 3, 3, 4, 4, 4, 5, 5, 6)),
+        "max_rank": rnd.choice((2, 3, 4, 6, 8, 10) if deep else (2, 2, 3, 3, 4, 4, 6, 6, 8)),
         "layouts": rnd.choice((["C"], ["C"], ["C", "T"], list(gen.LAYOUTS), ["C", "moveaxis", "moveaxis_r", "T"], ["F", "C"])),
         "cplx_p": rnd.choice((0.0, 0.3, 0.5, 1.0)),
         "kinds": rnd.choice((["vector"], ["vector", "square", "general"], ["square"], ["general", "vector"])),
         "length": rnd.choice((1, 2, 3, 5, 8, 14) if deep else (1, 2, 3, 5, 8)),
         "fault_rate": (rnd.choice((0.3, 0.6, 1.0)) if faults else 0.0),
         "double_p": rnd.choice((0.0, 0.15, 0.4)),
-        "sizes": rnd.choice(((1, 2, 3), (2, 3), (1, 2), (2,), (1, 2, 3, 4)) + (((1, 2, 3, 4, 5), (3, 5)) if deep else ())),
+        "sizes": rnd.choice(((1, 2, 3), (1, 2, 3), (2, 3), (2, 3), (1, 2), (1, 2), (2,), (2,), (1, 2, 3, 4), (1, 2, 3, 4),
+                             (1, 2, 3, 4, 5), (2, 5, 7)) + (((1, 2, 3, 4, 5), (3, 5), (2, 6, 9)) if deep else ())),
         "vals": rnd.choice((None, None, "normal", "deficient", "ints")),
     }
     if prop == "C05":
